@@ -24,7 +24,8 @@ from concurrent.futures import ThreadPoolExecutor
 from pathlib import Path
 
 from vlib import build, proof
-from vlib.common import BUILD, CORPUS, LEAN, NPROC, VERIF, log, run, sha
+from vlib.common import BUILD, CORPUS, LEAN, NPROC, VERIF, log, sha
+from vlib.common import run as sh
 
 sys.path.insert(0, str(VERIF / "tools"))
 import t3_tetlabels  # noqa: E402
@@ -74,9 +75,9 @@ def gen_and_judge(ctx, traces, ops, probe_cap, workdir, tag, seed):
     def one(job):
         first, n, out = job
         env = {"ASAN_OPTIONS": "detect_leaks=0:abort_on_error=1", "UBSAN_OPTIONS": "print_stacktrace=1"}
-        p = run([str(drv), "--seed", str(seed), "--first", str(first), "--traces", str(n), "--ops", str(ops),
+        p = sh([str(drv), "--seed", str(seed), "--first", str(first), "--traces", str(n), "--ops", str(ops),
                  "--probe-cap", str(probe_cap), "--out", str(out)], env=env, check=False, timeout=3600)
-        j = run(jcmd + [str(out)], cwd=LEAN, check=False, timeout=3600)
+        j = sh(jcmd + [str(out)], cwd=LEAN, check=False, timeout=3600)
         if j.returncode != 0:
             raise RuntimeError("judge failed on %s: %s" % (out, (j.stdout + j.stderr)[-2000:]))
         return out, j.stdout.splitlines(), p.stderr
@@ -87,7 +88,7 @@ def gen_and_judge(ctx, traces, ops, probe_cap, workdir, tag, seed):
 
 def judge_file(path):
     jcmd, _ = judge_cmd()
-    j = run(jcmd + [str(path)], cwd=LEAN, check=False, timeout=3600)
+    j = sh(jcmd + [str(path)], cwd=LEAN, check=False, timeout=3600)
     if j.returncode != 0:
         raise RuntimeError("judge failed on %s: %s" % (path, (j.stdout + j.stderr)[-2000:]))
     return j.stdout.splitlines()
@@ -197,7 +198,7 @@ def run_c15(ctx):
         for cf in sorted(cdir.glob("*.trace")) if cdir.exists() else []:
             out = workdir / ("corpus-" + cf.name)
             workdir.mkdir(parents=True, exist_ok=True)
-            p = run([str(drv), "--replay", str(cf), "--out", str(out)], env={"ASAN_OPTIONS": "detect_leaks=0:abort_on_error=1"}, check=False, timeout=600)
+            p = sh([str(drv), "--replay", str(cf), "--out", str(out)], env={"ASAN_OPTIONS": "detect_leaks=0:abort_on_error=1"}, check=False, timeout=600)
             absorb(out, judge_file(out), p.stderr)
             stats["corpus_traces"] += 1
         traces, ops, cap = ctx.pick((48, 22, 10), (640, 30, 40))
